@@ -93,10 +93,35 @@ Definition reverse_sx (x : sx) : sx :=
   let p := as_str (nth_sx 0 x) in
   SS (reverse (S (List.length p)) p (map as_str (as_list (nth_sx 1 x)))).
 
-(* tagged union: (0 table m p) route, (1 hosts host m p), (2 pattern values) reverse *)
+(* ---------- structural dump of the radix tree (compared with echo's real tree after every registration):
+   (kind prefix (method ...) has-notfound is-leaf is-handler (static child ...) param-child|() any-child|())
+   methods and static children sorted *)
+Fixpoint ins_node_sorted (x : sx * Spec2.str) (l : list (sx * Spec2.str)) : list (sx * Spec2.str) :=
+  match l with
+  | [] => [x]
+  | y :: r => if str_leb (snd x) (snd y) then x :: l else y :: ins_node_sorted x r
+  end.
+Fixpoint tree_sx (n : node) {struct n} : sx :=
+  match n with
+  | Node k pfx ms nf st pc ac =>
+    let kids := (fix go (l : list node) : list (sx * Spec2.str) :=
+                   match l with [] => [] | c :: l' => (tree_sx c, n_pfx c) :: go l' end) st in
+    SL [SZ (match k with KS => 0 | KP => 1 | KA => 2 end)%Z; SS pfx;
+        SL (map SS (sort_strs (map fst ms)));
+        of_bool (match nf with Some _ => true | None => false end);
+        of_bool (match st, pc, ac with [], None, None => true | _, _, _ => false end);
+        of_bool (match ms with [] => false | _ => true end);
+        SL (map fst (fold_right ins_node_sorted [] kids));
+        match pc with Some c => tree_sx c | None => SL [] end;
+        match ac with Some c => tree_sx c | None => SL [] end]
+  end.
+Definition dump_sx (x : sx) : sx := tree_sx (build (mk_table 0 (as_list (nth_sx 0 x)))).
+
+(* tagged union: (0 table m p) route, (1 hosts host m p), (2 pattern values) reverse, (3 table) tree dump *)
 Definition run_sx (x : sx) : sx :=
   match as_Z (nth_sx 0 x) with
   | 0%Z => route_sx (SL (tl (as_list x)))
   | 1%Z => host_sx (SL (tl (as_list x)))
+  | 3%Z => dump_sx (SL (tl (as_list x)))
   | _ => reverse_sx (SL (tl (as_list x)))
   end.
